@@ -249,6 +249,18 @@ int p_c18(void)
 			solver_case(&rr, q, p, L, def);
 		}
 	}
+	/* tall systems: more equations than a 16-bit row index can address (and the 2^15 line) */
+	{
+		static const int tall[][3] = { {65537, 24, 16}, {66000, 31, 8}, {70000, 40, 8}, {32769, 33, 4}, {131100, 20, 5}, {65536, 24, 3} };
+		for (int t = 0; t < 6; t++, unit++) {
+			rep_unit(unit);
+			if (!rep_unit_mine(unit)) continue;
+			if (!T && t == 4) continue;
+			rng_t r = rng_make(g_run.seed, 1890 + (uint64_t)t, 18);
+			solver_case(&r, tall[t][1], tall[t][0], tall[t][2], 0);
+			if (T || t < 2) { rng_t r2 = rng_make(g_run.seed, 1895 + (uint64_t)t, 18); solver_case(&r2, tall[t][1], tall[t][0], tall[t][2], 1 + t % 3); }
+		}
+	}
 	rep_count("dense_operations", g_ops);
 	return 0;
 }
